@@ -42,10 +42,15 @@ CLAIMS = {
                 note='@if/@each/@while and define_multi are evaluator code: not covered. Numeric::new/Value abstracted as uninterpreted constructors in Verus.',
                 tech='Verus on extracted ValueRange + Kani harnesses + K-snippet of SrcRange::evaluate',
                 ref='DESIGN.md §5 C17, §11'),
+    'C18': dict(cat='other',
+                text='The argument binding of user-defined functions and mixins: the body of FormalArgs::eval, extracted from /repo each run, with the sub-scope replaced by a binder that records every definition in order and the evaluation of a default replaced by a recorded call; css::CallArgs is instantiated at a cheap value type, the bodies of its methods take_positional / only_named / check_no_named / len are extracted as well, OrderMap is the real generic one. Checked on seven call shapes: positional by position, then named by name, then defaults left to right (a default is evaluated only when needed, after the parameters before it are bound), too many / unknown / missing arguments are errors, extras go to the rest parameter; `-` and `_` are equivalent in names (bounded).',
+                note='Evaluation of the argument expressions, the callee scope itself (defaults "in the callee scope", definition-site vs call-site scoping), @return, @content / using, meta.keywords and duplicated named arguments (rejected by the parser) are not covered. Bounded: nothing counted as proved.',
+                tech='Kani proof harnesses on K-snippets (FormalArgs::eval and CallArgs method bodies extracted each run, instantiated at a cheap value type)',
+                ref='DESIGN.md §11'),
     'C22': dict(cat='other',
-                text='Opt::collect_pos / collect_neg / map — the fold every no_placeholder uses, including the :not inversion — against the C22 statement for sequences of at most 4 items, and the real CompoundSelector / Selector / SelectorSet / Pseudo::no_placeholder on small concrete selector structures (a placeholder in a compound, in an ancestor, in a list, inside :is() and :not(); remaining selectors keep text and order; a list whose members are all removed is not emitted): bounded model checking of the real code.',
-                note='Only no_placeholder is covered; how Rule::write uses its result (the `*` fallback) and the selector parser/printer are not. Bounded: nothing counted as proved.',
-                tech='Kani bounded proof harnesses on the real selector structures',
+                text='Opt::collect_pos / collect_neg / map — the fold every no_placeholder uses, including the :not inversion — against the C22 statement for sequences of at most 4 items, CompoundSelector::no_placeholder (a compound with a placeholder is removed, one without is kept unchanged) and Pseudo::no_placeholder on a pseudo-class without selector argument: bounded model checking of the real code. The recursive cases (placeholder in an ancestor, in a selector list, inside :is() / :not() / ::slotted()) exist as harnesses on the real Selector / SelectorSet / Pseudo::no_placeholder but exceed 15 minutes and 5 GB each: thorough-tier attempts, never counted.',
+                note='How Rule::write uses the result (the `*` fallback), the selector parser/printer and the recursive selector structures (attempts only) are not covered. Bounded: nothing counted as proved.',
+                tech='Kani bounded proof harnesses on the real fold and selector structures',
                 ref='DESIGN.md §5 C22, §11'),
     'C26': dict(cat='proof',
                 text='The index arithmetic of string.slice and string.insert — how a 1-based, possibly negative Sass index becomes a code-point offset, and how many code points are taken — on the statement ranges extracted from the closures in sass/functions/string.rs each run: for EVERY i64 index pair and EVERY string length the selected positions are exactly i through j (empty when the range is empty), and insert puts the text before position i clamped to the string (loop-free, complete).',
@@ -85,7 +90,6 @@ NA = {
     'C10': 'Display for Formatted<Number> is f64 digit extraction through fmt and log10: Kani cannot run fmt and over-approximates log10; Verus has no f64 arithmetic (one sub-obligation is proved under C01)',
     'C15': 'operator precedence is the layering of nom parser functions',
     'C16': 'scope chain of Mutex<BTreeMap> walked by the recursive evaluator: contract expressible, no installed back end can execute it',
-    'C18': 'argument binding = FormalArgs::eval over scopes, closures and the parser (defaults are parsed at call time)',
     'C19': 'recursive Box/Vec/String selector algebra written with flat_map/retain/closures, and the selector parser: outside Verus\' subset, only trivially small instances in Kani',
     'C20': 'tree transformation through &mut dyn CssDestination objects whose Drop impls have the side effects in question; driven by the evaluator',
     'C21': 'same as C20: bubbling is implemented in Drop impls of CssDestination objects driven by the evaluator',
